@@ -12,7 +12,7 @@ import copy
 
 import z3
 
-from . import sym
+from . import sym, source
 from .sym import SV, INT, BOOL, REAL, STR, BYTES, Opt, Tup, Ref, Unsupported, lift
 
 
@@ -76,6 +76,14 @@ class Obj:
 
     def get(self, name):
         if name not in self._attrs:
+            src = getattr(self, '_class_source', None)
+            if src is not None:
+                # a method of the real class the sidecar has no model for (e.g. a helper extracted by a change):
+                # the REAL method is inlined, bound to this facade
+                dotted = source.resolve_method(src[0], src[1], name)       # the class' own method or an inherited one
+                node = source.select(src[0], dotted) if dotted else None
+                if isinstance(node, (ast.FunctionDef, ast.AsyncFunctionDef)) and not node.decorator_list:
+                    return Closure(node, 0, name, bound_self=self)
             if getattr(self, '_lenient', False):
                 return Unknown(f'{self._name}.{name}', self)
             raise Unsupported(f'{self._name} has no modelled attribute {name!r}')
@@ -481,11 +489,16 @@ class Interp:
             rel = getattr(self, 'relpath', None)
             if rel is None:
                 raise
-            from . import source
             try:
                 v = ast.literal_eval(source.module_assign(rel, node.id))
             except Exception:
-                raise Unsupported(f'unbound name {node.id!r}')
+                # a name the module imports but no sidecar models (e.g. an import added by a change): an unknown
+                # library object; whatever is computed from it is unconstrained
+                tree, _ = source.load_module(rel)
+                imported = {(a.asname or a.name).split('.')[0] for n in tree.body if isinstance(n, (ast.Import, ast.ImportFrom)) for a in n.names}
+                if node.id not in imported:
+                    raise Unsupported(f'unbound name {node.id!r}')
+                v = Unknown(f'import:{node.id}')
             yield st, v
 
     def ev_NamedExpr(self, node, st):
@@ -752,6 +765,14 @@ class Interp:
     def call(self, st, f, args, kwargs, node=None):
         from . import ops
         if isinstance(f, Model):
+            unk = [a for a in args if isinstance(a, Unknown)]
+            if unk:
+                from . import models
+                if any(f is m for m in models.BUILTINS.values()):
+                    # a builtin applied to unknown state (next(), len(), str(), ...): an unknown result
+                    unk[0].note(self, st)
+                    yield st, Unknown(f'{f.name}({unk[0].name})', unk[0].owner)
+                    return
             yield from f.fn(self, st, args, kwargs)
         elif isinstance(f, Closure):
             yield from self.call_closure(st, f, args, kwargs)
@@ -759,6 +780,9 @@ class Interp:
             yield from ops.call_method(self, st, f.recv, f.name, args, kwargs)
         elif isinstance(f, ExcClass):
             yield st, Exc(f.name, args)
+        elif isinstance(f, Unknown):
+            f.note(self, st)
+            yield st, Unknown(f.name + '()', f.owner)
         elif isinstance(f, SV) and getattr(f.ty, 'callable', False):
             m = f.ty.attrs['__call__']
             yield from m.fn(self, st, [f] + list(args), kwargs)
